@@ -609,6 +609,10 @@ func (c *Ctx) c04Oracle() error {
 				fmt.Fprintf(&sk, "func res%d(p %s) %s { return %d }\nfunc rcall%d() %s { var z %s; r := res%d(z); return r }\n", pi, P, T, K, pi, T, P, pi)
 				fmt.Fprintf(&sk, "func resb%d(p %s, q %s) (%s, %s) { return %d, %d }\nfunc rbcall%d() %s { var z %s; a, b := resb%d(z, z); _ = a; return b }\n", pi, P, P, T, T, K, K, pi, T, P, pi)
 			}
+			// constants spelled like floats (2.0, 1e3 - integral, or Go rejects them) are untyped constants too: they take
+			// the declared type in every store position
+			fmt.Fprintf(&sk, "func fkd() %s { var x %s = %d.0; return x }\nfunc fka() %s { var x %s; x = %d.0; return x }\nfunc fkp() %s { return par(%d.0) }\nfunc fkr() %s { return %d.0 }\nfunc fkf() %s { s := &S{F: %d.0}; return s.F }\nfunc fke() %s { s := []%s{%d.0}; return s[0] }\nfunc fkm() %s { m := map[string]%s{\"k\": %d.0}; return m[\"k\"] }\nconst FKC = %d.0\nfunc fkn() %s { var x %s = FKC; return x }\n",
+				T, T, K, T, T, K, T, K, T, K, T, K, T, T, K, T, T, K, K, T, T)
 			// implicit repetition in a typed constant group repeats the type too, also for a compound expression
 			fmt.Fprintf(&sk, "func cgrp1() %s { const ( CA %s = %d + iota - iota; CB; CC ); v := CC; v += 0; return v }\nfunc cgrp2() %s { const ( DA, DB %s = iota * 0 + %d, %d; DC, DD ); v := DD; return v }\nconst ( GA %s = (%d); GB; GC )\nfunc cgrp3() %s { v := GC; return v }\nfunc cgrp4() %s { const ( EA %s = %d; EB ); return EB }\n",
 				T, T, K, T, T, K, K, T, K, T, T, T, K)
@@ -622,6 +626,9 @@ func (c *Ctx) c04Oracle() error {
 				for _, fn := range []string{"mab", "mac", "mad"} {
 					check("absent-key-zero", fmt.Sprintf("%s: map[%s]%s{} read at an absent key, then += %d", fn, P, T, K), s.call(fmt.Sprintf("%s%d", fn, pi)), fmt.Sprintf("%d:%s", K, T))
 				}
+			}
+			for _, fn := range []string{"fkd", "fka", "fkp", "fkr", "fkf", "fke", "fkm", "fkn"} {
+				check("float-spelled-const-store", fmt.Sprintf("%s: the constant %d.0 stored as %s", fn, K, T), s.call(fn), fmt.Sprintf("%d:%s", K, T))
 			}
 			for _, fn := range []string{"cgrp1", "cgrp2", "cgrp3", "cgrp4"} {
 				check("typed-const-group", fmt.Sprintf("%s: a repeated spec of a const group typed %s with value %d", fn, T, K), s.call(fn), fmt.Sprintf("%d:%s", K, T))
@@ -769,7 +776,32 @@ func fkel() float64 { s := []float64{FK, FK2}; return s[1] / 2 }
 	return nil
 }
 
+// c04OpenFindings replays the recorded, unrepaired defects of the property (known_findings.json): each prints a
+// KNOWN-FINDING line while its witness still fails, and is an ordinary violation if it is not listed
+func (c *Ctx) c04OpenFindings() {
+	for _, w := range []struct {
+		id, src, fn string
+		args      []goat.Value
+		want      string
+	}{
+		{"float-constant-operand", "func f(i int) int { return i / 2.0 }", "f", []goat.Value{mkArg("int32", 7)}, "3:int32"},
+		{"constant-shift-in-expression", "func f(x int32, s int32) int32 { return x + 1<<s>>s }", "f", []goat.Value{mkArg("int32", 5), mkArg("int32", 31)}, "4:int32"},
+	} {
+		got := newScript(w.src).call(w.fn, w.args...)
+		c.Rep.Oracle["open-finding-witness"]++
+		if got == w.want {
+			continue
+		}
+		if f, ok := c.Findings[w.id]; ok {
+			c.Rep.Known = append(c.Rep.Known, w.id+": "+f.What+" (witness "+w.src+" gives "+got+", Go "+w.want+")")
+			continue
+		}
+		c.Rep.Violate(Violation{Kind: "oracle", Cut: "open-finding-witness", Input: w.src, Impl: got, Oracle: w.want})
+	}
+}
+
 func runC04(c *Ctx) error {
+	c.c04OpenFindings()
 	c.Rep.Rule = "num cut: (op, tagged operand pair) lines, 8-bit types exhaustive (256x256 per op), every ordered pair of kinds {untyped,uint8,int8,uint32,int32} on boundary+random values, float64 on special+random bit patterns, assign/convert/incdec/negate forms; oracle: script functions per type x syntactic position (var op var, x := a op b, a op= b, var op K, K op var, a op= K, ++/--, unary, typed var/const declaration, named constants without a type in every store position and as operands, parameter/variadic/field/element/result stores with parameters of every other type, conversions) against native Go arithmetic; distinct = distinct protocol line / (position,type,operands)"
 	if err := c.c04Corr(); err != nil {
 		return err
